@@ -221,14 +221,34 @@ func (x *castX) helper(fun ast.Expr) (*ast.FuncDecl, ast.Expr) {
 		}
 	}
 	fd := x.funcs[id.Name]
-	if fd == nil || len(fd.Body.List) != 1 {
+	if fd == nil || len(fd.Body.List) == 0 {
 		return nil, nil
 	}
-	r, ok := fd.Body.List[0].(*ast.ReturnStmt)
+	// `name := expr` statements may precede the single return: they are bound like parameters (helperDefs)
+	for _, st := range fd.Body.List[:len(fd.Body.List)-1] {
+		as, ok := st.(*ast.AssignStmt)
+		if !ok || as.Tok != token.DEFINE || len(as.Lhs) != 1 || len(as.Rhs) != 1 {
+			return nil, nil
+		}
+		if _, ok := as.Lhs[0].(*ast.Ident); !ok {
+			return nil, nil
+		}
+	}
+	r, ok := fd.Body.List[len(fd.Body.List)-1].(*ast.ReturnStmt)
 	if !ok || len(r.Results) != 1 {
 		return nil, nil
 	}
 	return fd, r.Results[0]
+}
+
+// helperDefs lists the `name := expr` statements that precede the return of a helper accepted by helper().
+func helperDefs(fd *ast.FuncDecl) (names []string, exprs []ast.Expr) {
+	for _, st := range fd.Body.List[:len(fd.Body.List)-1] {
+		as := st.(*ast.AssignStmt)
+		names = append(names, as.Lhs[0].(*ast.Ident).Name)
+		exprs = append(exprs, as.Rhs[0])
+	}
+	return
 }
 
 func paramNames(fd *ast.FuncDecl) []string {
@@ -267,10 +287,24 @@ func (x *castX) inline(call *ast.CallExpr, f func(body ast.Expr) (string, bool))
 	ob, ocb := x.binds, x.cbinds
 	x.binds, x.cbinds = nb, ncb
 	x.depth++
-	r, ok := f(body)
-	x.depth--
-	x.binds, x.cbinds = ob, ocb
-	return r, ok
+	defer func() {
+		x.depth--
+		x.binds, x.cbinds = ob, ocb
+	}()
+	// the helper's own `name := expr` statements, each bound to its translation in turn
+	dn, de := helperDefs(fd)
+	for i, n := range dn {
+		if c, ok := x.constInt(de[i]); ok {
+			ncb[n] = c
+			continue
+		}
+		if e, ok := x.expr(de[i]); ok {
+			nb[n] = e
+			continue
+		}
+		return "", false
+	}
+	return f(body)
 }
 
 func (x *castX) constInt(e ast.Expr) (string, bool) {
@@ -445,6 +479,9 @@ func (x *castX) guard(e ast.Expr) (string, bool) {
 		return x.inline(n, x.guard)
 	case *ast.UnaryExpr:
 		if n.Op == token.NOT {
+			if a, ok := x.guardNeg(n.X); ok {
+				return a, true
+			}
 			if a, ok := x.guard(n.X); ok {
 				return "(.not " + a + ")", true
 			}
@@ -480,6 +517,48 @@ func (x *castX) guard(e ast.Expr) (string, bool) {
 						return fmt.Sprintf("(.cmp %s %s %s)", flip[op], l, lint(c)), true
 					}
 				}
+			}
+		}
+	}
+	return "", false
+}
+
+// guardNeg translates the negation of a guard with the negation pushed inward (De Morgan, comparison
+// operators negated), so that `!(lo <= v && v <= hi)` and `v < lo || v > hi` give the same text.
+func (x *castX) guardNeg(e ast.Expr) (string, bool) {
+	e = ast.Unparen(e)
+	switch n := e.(type) {
+	case *ast.CallExpr:
+		return x.inline(n, x.guardNeg)
+	case *ast.UnaryExpr:
+		if n.Op == token.NOT {
+			return x.guard(n.X)
+		}
+	case *ast.BinaryExpr:
+		switch n.Op {
+		case token.LOR, token.LAND:
+			a, ok1 := x.guardNeg(n.X)
+			b, ok2 := x.guardNeg(n.Y)
+			if ok1 && ok2 {
+				op := ".and"
+				if n.Op == token.LAND {
+					op = ".or"
+				}
+				return fmt.Sprintf("(%s %s %s)", op, a, b), true
+			}
+		default:
+			neg := map[token.Token]token.Token{token.LSS: token.GEQ, token.LEQ: token.GTR, token.GTR: token.LEQ, token.GEQ: token.LSS, token.EQL: token.NEQ, token.NEQ: token.EQL}
+			// only between integers: on floats `!(v >= lo)` and `v < lo` differ for NaN
+			isInt := func(e ast.Expr) bool {
+				tv, ok := x.p.info.Types[e]
+				if !ok || tv.Type == nil {
+					return false
+				}
+				b, ok := tv.Type.Underlying().(*types.Basic)
+				return ok && b.Info()&types.IsInteger != 0
+			}
+			if nop, ok := neg[n.Op]; ok && isInt(n.X) && isInt(n.Y) {
+				return x.guard(&ast.BinaryExpr{X: n.X, Op: nop, Y: n.Y, OpPos: n.OpPos})
 			}
 		}
 	}
@@ -1282,6 +1361,12 @@ func main() {
 	cwr, cg := sharedWrites(cp)
 	sb.WriteString("/-- Assignments through a receiver, a parameter or a package-level variable in pkg/jsonline. -/\ndef jsonlineWrites : List (String × String) := " + lstrList(jw) + "\n\n")
 	sb.WriteString("def jsonlineGlobals : List String := " + lstrList(jg) + "\n\n")
+	var st []string
+	for n := range sharedTypes(jp) {
+		st = append(st, n)
+	}
+	sort.Strings(st)
+	sb.WriteString("/-- Struct types of pkg/jsonline whose objects can be shared through the API (writes to other struct types are not listed above). -/\ndef jsonlineSharedTypes : List String := " + lstrList(st) + "\n\n")
 	sb.WriteString("def castWrites : List (String × String) := " + lstrList(cwr) + "\n\n")
 	sb.WriteString("def castGlobals : List String := " + lstrList(cg) + "\n\n")
 	sb.WriteString("/-- Every call that receives the template's prototype row `t.empty`, per template method. -/\ndef protoUses : List (String × String) := " + lstrList(rootedCalls(jp, "template.*", "t.empty")) + "\n\n")
